@@ -434,9 +434,7 @@ def loopRegions (mode : Nat) (pts : List Nat) : List Smpl.Wav.LoopRegion :=
   | _ => [mk (if a 2 - a 0 < 0 then 0 else a 2 - a 0) (if a 2 - a 1 < 0 then 0 else a 2 - a 1) 1 true]
 
 /-- reverse the order of the 2-byte samples of a window (`StreamReversed`, width 2). -/
-def reverseWords : Bytes → Bytes
-  | a :: b :: rest => reverseWords rest ++ [a, b]
-  | _ => []
+abbrev reverseWords : Bytes → Bytes := Smpl.ShortRead.reverseWords
 
 /-- one cluster of the data area; the data-area window is clipped at the end of the file. -/
 def clusterData (img : Img) (c : Nat) : Bytes :=
